@@ -392,9 +392,26 @@ def gen_cases(rng, tier):
                             b['vals'][k] = full[n - ob - 1:]
                 for op in ('eq', 'ne', 'tvl_eq', 'tvl_ne'):
                     cases.append({'kind': 'polyeq', 'op': op, 'a': a, 'b': b})
+    marked = len(cases)
+    # history core: every way of reaching an operand through a history x every comparison, on a fixed pattern
+    # (so that catching a stale cached view does not depend on which random cases happen to carry a history)
+    for mode in sorted(set(HIST_MODES) | {'itruediv', 'derived', 'inplace_num'}):
+        for k in range(3):
+            for shape, rep in (((3,), 'mix'), ((2, 2), 'mix'), ((3,), 'aT')):
+                a = gen_num_operand(rng, shape, (), 'Scalar', None, rep=rep)
+                a['float'] = True
+                a['vals'] = [[float(v[0])] for v in a['vals']]
+                b = gen_num_operand(rng, shape, (), 'Scalar', None, rep='F')
+                ah = dict(a, hist=[mode, k])
+                for op in CMPS:
+                    cases.append({'kind': 'cmp', 'op': op, 'a': ah, 'b': b})
+                    cases.append({'kind': 'cmp', 'op': op, 'a': b, 'b': ah})
+                for op in ('eq', 'lt'):
+                    cases.append({'kind': 'tvlcmp', 'op': op, 'a': ah, 'b': b})
+                cases.append({'kind': 'truth', 'op': 'eq', 'a': ah, 'b': a})
     # a fraction of the operands is REACHED THROUGH A HISTORY (harness/hist.py: cached views asked for, then an
     # in-place operation / assignment that brings the object to the described content) - seeded change C14-D
-    for c in cases:
+    for c in cases[:marked]:
         for k in ('a', 'b'):
             if k in c and rng.random() < 0.2:
                 c[k] = dict(c[k], hist=[rng.choice(HIST_MODES), rng.randrange(24)])
